@@ -96,6 +96,8 @@ def run_one(stratum, seed, index):
         # every fault point: (source, query, seam) x call position 1..INJECT_ALL_CAP
         base, k = divmod(index, gen.INJECT_ALL_CAP)
         return gen.inject_template_run(seed, base * len(gen.INJECT_NTH), stratum="injectall", nth_override=k + 1)
+    if stratum.startswith("sweepcore"):
+        return gen.sweep_run(int(stratum[9:]), index, which="core")
     if stratum.startswith("sweep"):
         return gen.sweep_run(int(stratum[5:]), index)
     raise ValueError(stratum)
@@ -655,7 +657,7 @@ def _gcd(a, b):
 def thorough_batch(pool, seed, args, batch):
     from . import gen
 
-    budget = args.budget if args.budget is not None else float(os.environ.get("VERIF_BUDGET_S", "3600"))
+    budget = args.budget if args.budget is not None else float(os.environ.get("VERIF_BUDGET_S", "2700"))
     t0 = time.time()
     tasks = list(chunks("template", seed, range(gen.N_TEMPLATES), want_fp=True))
     tasks += list(chunks("inject", seed, range(gen.N_INJECT_TEMPLATES)))
@@ -664,10 +666,23 @@ def thorough_batch(pool, seed, args, batch):
     n_all = (gen.N_INJECT_TEMPLATES // len(gen.INJECT_NTH)) * gen.INJECT_ALL_CAP
     tasks += list(chunks("injectall", seed, range(n_all), size=CHUNK * 4))
     run_tasks(pool, tasks, batch, max_violating_chunks=60)
-    # length<=4 sweep (a supplement sampled without replacement; see DESIGN 3.6)
-    sweep_info = {"alphabet": gen.SWEEP_ALPHABET, "max_len": 4, "sources": len(gen.SWEEP_SOURCES), "runs": 0,
-                  "sequences_per_source": gen.sweep_count(4), "complete": False}  # fmt: skip
-    sweep_budget = float(os.environ.get("VERIF_SWEEP_BUDGET_S", str(budget * 0.45)))
+    # every sequence of length <= 4 over the core alphabet, on each sweep structure
+    n_core = gen.sweep_count(4, "core")
+    sweep_info = {"core_alphabet": gen.SWEEP_CORE, "core_sequences_per_structure": n_core, "core_runs": 0,
+                  "core_complete": False, "structures": len(gen.SWEEP_SOURCES),
+                  "wide_alphabet": gen.SWEEP_ALPHABET, "wide_sequences_per_structure": gen.sweep_count(4),
+                  "wide_runs": 0, "wide_complete_up_to_length": 0}  # fmt: skip
+    before = batch.runs
+    if os.environ.get("VERIF_SKIP_CORE_SWEEP") != "1" and len(batch.violations) < 60:
+        core_tasks = []
+        for start in range(0, n_core, CHUNK * 4):
+            for si in range(len(gen.SWEEP_SOURCES)):
+                core_tasks.append(("sweepcore%d" % si, seed, list(range(start, min(n_core, start + CHUNK * 4))), False))
+        run_tasks(pool, core_tasks, batch, max_violating_chunks=60)
+        sweep_info["core_runs"] = batch.runs - before
+        sweep_info["core_complete"] = sweep_info["core_runs"] == n_core * len(gen.SWEEP_SOURCES)
+    # the wide alphabet: every sequence of length <= 3, then a seeded-stride sample of length 4
+    sweep_budget = float(os.environ.get("VERIF_SWEEP_BUDGET_S", str(budget * 0.35)))
     deadline = time.time() + sweep_budget
     before = batch.runs
 
@@ -688,8 +703,10 @@ def thorough_batch(pool, seed, args, batch):
 
     if len(batch.violations) < 60:
         run_tasks(pool, sweep_tasks(), batch, deadline=deadline, max_violating_chunks=60)
-    sweep_info["runs"] = batch.runs - before
-    sweep_info["complete"] = sweep_info["runs"] >= gen.sweep_count(4) * len(gen.SWEEP_SOURCES)
+    sweep_info["wide_runs"] = batch.runs - before
+    for k in (1, 2, 3, 4):
+        if sweep_info["wide_runs"] >= gen.sweep_count(k) * len(gen.SWEEP_SOURCES):
+            sweep_info["wide_complete_up_to_length"] = k
     # seeded random histories for the rest of the budget
     deadline = t0 + budget
 
